@@ -18,7 +18,8 @@ BUDGET_S = {'quick': 240, 'thorough': 3000}
 RULE = ("Runs derived from (VERIF_SEED, index). 'interleave' runs: 2-4 instances (regimes same / mixed+switch / mixed), seeded "
         "schedule of constructions and steps (uniform, bursts, alternation, late construction), each instance's per-tick "
         "full-state trace compared with its solo trace from a pristine forked process. 'replay' runs: snapshot tick s, deepcopy "
-        "and rebuilt-from-architectural-state instances continued for k ticks against the original, plus a second complete run. "
+        "and rebuilt-from-architectural-state instances continued for k ticks against the original (lock-step, original k ticks ahead, or copies ahead; "
+        "data device sometimes 1-2 MiB), plus a second complete run. "
         "distinct_nontrivial = distinct schedule hashes of interleave runs in which at least two instances each executed >= 20 "
         "ticks, counted per regime, plus distinct (snapshot tick bucket, executed-opcode-class) pairs of replay runs.")
 ASSUMPTIONS = [
